@@ -137,15 +137,16 @@ func (t *HarfbuzzShaper) Shape(input Input) Output {
 		glyphs[i].XBearing = fixed.I(int(extents.XBearing)) >> scaleShift
 		glyphs[i].YBearing = fixed.I(int(extents.YBearing)) >> scaleShift
 	}
-	countClusters(glyphs, input.RunEnd, input.Direction.Progression())
+	// use the corrected range, as the buffer did
+	countClusters(glyphs, end, input.Direction.Progression())
 	out := Output{
 		Glyphs:    glyphs,
 		Direction: input.Direction,
 		Face:      input.Face,
 		Size:      input.Size,
 	}
-	out.Runes.Offset = input.RunStart
-	out.Runes.Count = input.RunEnd - input.RunStart
+	out.Runes.Offset = start
+	out.Runes.Count = end - start
 
 	if isSideways {
 		// set the Direction to the correct value.
